@@ -36,6 +36,7 @@ MIN_COUNTERS = {'nf_judged': 20, 'noisy_trials': 100, 'nf_cube_cases_plane_above
 BATCHES_PER_JOB = 6
 KEY_D25 = 'amplitude-bound-excludes-truth'
 KEY_SPLIT = 'pixel-noise-local-maxima-split-source'
+KEY_SAMPLING = 'pixel-sampling-local-maxima-split-source'
 
 TOL = {'pos_px': 0.02, 'peak': 1e-3, 'a': 5e-3, 'b': 5e-3, 'pa_deg': 0.5, 'int': 5e-3}
 PARS = ('ra', 'dec', 'peak', 'a', 'b', 'pa', 'int')
@@ -565,6 +566,17 @@ def _run_nf(o, case, sc):
     if excluded:
         o.count('d25_predicate_true')
     if len(rows) != 1:
+        if mech is None and len(rows) > 1:
+            # the finder seeds one component per 3x3 local maximum inside an island; the SAMPLING of a thin ridge that crosses the
+            # pixel grid at a shallow angle can itself have two such maxima (no noise needed) - decided from the image alone
+            try:
+                _, nmax = source_island(np.asarray(img, dtype=np.float32).astype(float), z, truth, 4.0 * rms)
+            except Exception:
+                nmax = 0
+            if nmax >= 2:
+                mech = KEY_SAMPLING
+                wit = dict(wit, local_maxima_of_the_sampled_source=int(nmax))
+                o.count('sampling_split_predicate_true')
         o.violate('not_exactly_one_component', dict(wit, n=len(rows), rows=rows[:3]), mech)
         return
     r = rows[0]
